@@ -5,15 +5,16 @@ PLAN = dict(
     rule="oneshot: nested enumeration mode (ECB, CBC, CFB, OFB, CTR, XTS, GB-XTS, BC, OFBNLF, HCTR) x direction x every admissible "
          "length up to 1040 bytes (block modes: multiples of 16; stream modes 0..1040; XTS 16..1040; HCTR 16..400 quick / 1040 thorough) "
          "x IV kind (random; CTR additionally all-ones and 2^32-d, 2^64-d, 2^128-d with d in 1..40; XTS tweak and sector constructors) "
-         "x guard placement (hi/lo) x alias mode (disjoint, in place, dst longer; rotated over the lengths in the quick tier for the "
+         "x buffer placement (hi: every buffer ends at a guard page; lo: starts at one; mis: src, dst, key and IV/tweak start at rotating "
+         "offsets from {1, 8, 16, 24, 31} with src != dst, so that an aligned load/store on caller memory faults) x alias mode (disjoint, in place, dst longer; rotated over the lengths in the quick tier for the "
          "byte-granular modes), plus seeded long messages up to 64 KiB; every case runs the fused, the generic and (XTS, HCTR) the "
          "batched library path on the same input, compares each output with the reference and decrypts the fused ciphertext again. "
          "stream: histories on ONE mode object, mode x direction x partition kind (unit-at-a-time, batch-boundary sizes +-1, random, "
          "random with empty calls, two calls, head/body/tail) x length list, output compared with the one-call reference after every "
-         "call, each call from its own guarded buffers, alternately in place. Keys, IVs, data and cut points come from the case PRNG. "
+         "call, each call from its own guarded buffers (hi / lo / misaligned with another offset pair per call), alternately in place. Keys, IVs, data and cut points come from the case PRNG. "
          "Non-trivial = non-empty message; distinct = distinct class keys (configuration | workload / mode / direction / "
          "[partition kind] / whole-block count bucket (0,1,2-3,4-7,8-15,16-31,32-63,64-65,long) / tail size len mod 16 / IV kind / "
-         "alias mode / guard side)",
+         "alias mode / placement hi|lo|mis; plus mis / mode / direction / block bucket / src offset)",
     jobs=[
         J("c03.oneshot", configs=_ASM, variant="asm", shards=(2, 16), floor=100000),
         J("c03.oneshot", configs=["purego"], variant="purego", shards=(2, 16), floor=100000),
